@@ -35,8 +35,15 @@ SPEC = dict(
         'domain as in DESIGN.md C14: trapezoid finite vm>0, ac*dir>0, de*dir<0, p1!=p0, |v0|,|v1|<=vm; bell finite jm,am,vm>0, '
         '|v0|,|v1|<=vm and the Biagiotti-Melchiorri feasibility condition (evaluated in binary128); and the generator returned a duration > 0',
         'the property states no numerical tolerance: a clause is refuted only beyond C*(eps*S + measured conditioning of the request), '
-        'C=16 trapezoid / 256 bell, S the kinematic scale of the profile; requests whose +-2 ulp neighbourhood contains a request the '
-        'generator declines have no finite tolerance and are counted, not judged (monitor "*.not-judged.tolerance-unbounded")',
+        'C=16 trapezoid / 256 bell, S the kinematic scale of the profile: S_p=|p0|+|p1|+v*T+v^2/a_min(+v*a/j), S_v=v+a*T, S_a=a+j*T from the '
+        'magnitudes recorded in the context, plus eps*v*(|ac|+|de|)/|de| on the velocity limit of the trapezoid accel-only branch and '
+        'j*T^2 / j*T^3 in S_v / S_p of the bell single-phase branches (rounding analysis in the header of harness/h_traj.c); worst observed '
+        'error/unit over 19.7e6 profiles: 1.45 trapezoid, 1.47 bell (monitors "ratio.*" report it per run)',
+        'requests whose +-2 ulp neighbourhood contains a request the generator declines have no finite tolerance and are counted, not judged '
+        '(monitor "*.not-judged.tolerance-unbounded"); "*.tolerance-inflated>1e3-by-conditioning" and "*.weak.*" count the profiles whose '
+        'tolerance was widened by the measured conditioning, so that vacuity is visible',
+        'a request for which the generator reports no positive duration is outside the property (counted per direction in '
+        '"*.outside.generator-declined.*"); the sign of a_trajbell_jer/acc is not constrained by the property, only magnitudes and continuity',
         'limits are judged at phase boundaries (both sides), sign changes of vel/acc located by bisection, 301 uniform and 100 random '
         'instants per profile - not at every real instant',
     ],
